@@ -53,6 +53,22 @@ exports.register = function (ops) {
               r = { path: path.relative(dir, fs.existsSync(p) ? fs.realpathSync(p) : p), exists: fs.existsSync(p) && fs.statSync(p).isFile(), search: u.search + u.hash };
             }
           }
+          // second hop: resolve q.then from the file the first hop resolved to (Node loads modules under their real
+          // path, so the lookup starts from there)
+          if (q.then && r && r.path && !r.path.startsWith('node:')) {
+            const first = fs.realpathSync(path.join(dir, r.path));
+            if (q.kind === 'require') {
+              r = { path: path.relative(dir, fs.realpathSync(Module.createRequire(first).resolve(q.then))) };
+            } else {
+              const hd = path.dirname(first);
+              const hp = path.join(hd, '__verif_helper2_' + (counter++) + '.mjs');
+              fs.writeFileSync(hp, 'export const r = (s) => import.meta.resolve(s);\n');
+              const url = (await import(pathToFileURL(hp).href)).r(q.then);
+              fs.rmSync(hp);
+              const p2 = fileURLToPath(new URL(url));
+              r = { path: path.relative(dir, fs.existsSync(p2) ? fs.realpathSync(p2) : p2), exists: fs.existsSync(p2) && fs.statSync(p2).isFile(), search: '' };
+            }
+          }
         } catch (e) {
           r = { code: e && e.code ? String(e.code) : String(e && e.name) };
         }
